@@ -39,7 +39,7 @@ pub const READ_LATEST_STREAM_ENTRY: &str =
 const REF_CHECK_LEASE_OWNER: &str = include_str!("ref_scripts/check_lease_owner.lua");
 const REF_RELEASE_LOCK: &str = include_str!("ref_scripts/release_lock.lua");
 const REF_PROMOTE_LEADER: &str = include_str!("ref_scripts/promote_leader.lua");
-const REF_WRITE_BLOCK: &str = include_str!("ref_scripts/write_block.lua");
+pub const REF_WRITE_BLOCK: &str = include_str!("ref_scripts/write_block.lua");
 const REF_READ_STREAM_ENTRIES: &str = include_str!("ref_scripts/read_stream_entries.lua");
 const REF_READ_LATEST_STREAM_ENTRY: &str = include_str!("ref_scripts/read_latest_stream_entry.lua");
 
